@@ -46,10 +46,20 @@ PW == C.P
 ColMean(j) == ISumR([i \in 1..n |-> w[i] * T[i][j]], n)
 NysTrace == FTrace(FMatMul(FMatMul(T, PW), FTr(T)))
 SBud == 8 * n * (ProdBudget(Len(Kmm), FMaxAbs(T), FMaxAbs(PW)) + 2) * ((FMaxAbs(T) \div S) + 1)
+\* centred Nystrom trace of the INPUT block (the quantity the implementation divides by), from the logged integer kernel
+Kin == C.Knmq
+InMean(j) == ISumR([i \in 1..n |-> w[i] * Kin[i][j]], n) \div WS
+Kcin == [i \in 1..n |-> [j \in 1..Len(Kmm) |-> Kin[i][j] - (IF C.wc THEN InMean(j) ELSE 0)]]
+InTrace == FTrace(FMatMul(FMatMul(Kcin, PW), FTr(Kcin)))
+InBud == 8 * n * (ProdBudget(Len(Kmm), FMaxAbs(Kcin), FMaxAbs(PW)) + 2) * ((FMaxAbs(Kcin) \div S) + 1)
 SparseVerdict ==
     IF C.raised THEN <<"rejected", "valid-kernel-rejected">>
-    ELSE IF FMaxAbs(PW) > 200 * S \/ FMaxAbs(T) > 200 * S \/ FMaxAbs(Kmm) > 200 * S THEN <<"inconclusive", "magnitude">>
+    ELSE IF FMaxAbs(PW) > 200 * S \/ FMaxAbs(Kmm) > 200 * S \/ FMaxAbs(Kin) > 200 * S THEN <<"inconclusive", "magnitude">>      \* inputs / witness only
     ELSE IF ~IsPInvB(Kmm, PW) THEN <<"badwitness", "pinv">>
+    ELSE IF C.wt /\ InTrace <= InBud + (n * S) \div 256 THEN <<"inconclusive", "zero-trace">>        \* scale below 1/16: nothing to normalise reliably
+    ELSE IF ~C.finite THEN <<"rejected", "transformed-kernel-not-finite">>
+    ELSE IF FMaxAbs(T) > 200 * 16 * S THEN <<"rejected", "transformed-kernel-out-of-range">>
+    ELSE IF FMaxAbs(T) > 200 * S THEN <<"inconclusive", "magnitude">>
     ELSE IF C.wc /\ \E j \in 1..Len(Kmm) : IAbs(ColMean(j)) > WS + n THEN <<"rejected", "transformed-column-mean-not-zero">>
     ELSE IF C.wt /\ C.trpos /\ SBud * 20 > n * S THEN <<"inconclusive", "budget">>
     ELSE IF C.wt /\ C.trpos /\ IAbs(NysTrace - n * S) > SBud THEN <<"rejected", "centred-nystrom-trace-not-n">>
